@@ -146,7 +146,7 @@ class ParamsSuite(ProgBaseSuite):
             if op["exclude"] and rng.random() < 0.12:
                 # an entry that is not a well number (truncating or parsing it would silently exclude another well)
                 op["exclude"] = list(op["exclude"])
-                op["exclude"][rng.randrange(len(op["exclude"]))] = {"bad": rng.choice(["float:%d.5" % (ds + 1), "str:%d" % (ds + 1), "none"])}
+                op["exclude"][rng.randrange(len(op["exclude"]))] = {"bad": rng.choice(["float:%d.5" % (ds + 1), "str:%d" % (ds + 1), "none", "float:%d.0" % (ds + 1), "float:%d.0" % ds])}
             elif op["exclude"] and rng.random() < 0.4:
                 op["exclude_type"] = rng.choice(["tuple", "set", "iter", "gen"])
                 if op["exclude_type"] == "set":
@@ -306,7 +306,7 @@ class EvoCmdSuite(ProgBaseSuite):
                           "grid": rng.choice([1, 67, 0, 68, {"notint": "float:3.0"}]) if rng.random() < 0.1 else rng.randint(1, 67),
                           "site": rng.choice([1, 128, 0, 129, {"notint": "none"}]) if rng.random() < 0.1 else rng.randint(1, 128),
                           "tips": te, "volume": vol, "lc": rng.choice(["Water", "Water_DispZmax", "", "a;b", {"notstr": "none"}, "Water free dispense 0123456789 ABCDEF", "L" * 32, "L" * 33, "Ethanol 70% (v/v) µ-dispense"]) if rng.random() < 0.25 else "Water free dispense",
-                          "arm": rng.choice([0, 0, 0, 1, 1, 0, 1, 0, 0, 1, 0, 0, 2, -1]), "label": rng.choice(proggen.LABELS[:10])}
+                          "arm": rng.choice([0, 0, 0, 1, 1, 0, 1, 0, 0, 1, 0, 0, 2, -1, {"notint": "float:1.0"}, {"notint": "float:0.0"}]), "label": rng.choice(proggen.LABELS[:10])}
                     if not asp:
                         op["comps"] = proggen.gen_comps(rng, nw)
                     ops.append(op)
